@@ -227,6 +227,7 @@ def correspond(ctx: C.Ctx, cov: C.Coverage) -> List[C.Disagreement]:
         for a, b, what in pairs:
             va, vb = T.sort_unordered(T.to_val(a)), T.sort_unordered(T.to_val(b))
             lines.append(["checkeq", va, vb]); expect.append(("verdict", real_verdict(a, b))); meta_.append(("pair", what))
+            lines.append(["checkeq", vb, va]); expect.append(("verdict", real_verdict(b, a))); meta_.append(("pair", what))
             cov.evaluations += 1
             cov.hit("checker:" + ("equal" if what is None else "mutated"))
             if what:
@@ -347,6 +348,66 @@ def mutate_attr(obj, rng) -> Optional[Tuple[str, str]]:
         w = mutate_sid(nodes, rng, None)
         if w:
             return w
+    elif r < 0.62:
+        # an optional attribute that is set on one side is absent on the other
+        cands = []
+        for o, cls in nodes:
+            if cls in ("Key", "ExternalReference", "ModelReference", "SpecificAssetId"):
+                continue
+            for attr, kind in meta.META[cls]:
+                if kind[0] == "o" and getattr(o, attr, None) is not None and attr not in ("id_short",):
+                    cands.append((o, cls, attr))
+        rng.shuffle(cands)
+        for o, cls, attr in cands:
+            try:
+                setattr(o, attr, None)
+                if getattr(o, attr) is None:
+                    return cls, attr + "=None"
+            except Exception:
+                continue
+    elif r < 0.76:
+        # one member of a collection is missing on one side
+        cands = []
+        for o, cls in nodes:
+            if cls in ("Key", "ExternalReference", "ModelReference", "SpecificAssetId"):
+                continue
+            for attr, kind in meta.META[cls]:
+                k = kind[1:] if kind[0] == "o" else kind
+                head = k.split(":")[0].split("=")[0]
+                v = getattr(o, attr, None)
+                if head in ("list", "list1", "set", "set1", "elems", "elems_ordered") and v is not None and len(v) >= (2 if head.endswith("1") else 1):
+                    cands.append((o, cls, attr, v))
+        rng.shuffle(cands)
+        for o, cls, attr, v in cands:
+            try:
+                item = rng.choice(list(v))
+                if hasattr(v, "discard"):
+                    v.discard(item)
+                elif hasattr(v, "remove"):
+                    v.remove(item)
+                else:
+                    continue
+                return cls, attr + "-item"
+            except Exception:
+                continue
+    elif r < 0.82:
+        # an element is of the sub- resp. superclass on the other side (relationship vs annotated relationship)
+        for o, cls in nodes:
+            if cls in ("RelationshipElement", "AnnotatedRelationshipElement") and o.parent is not None \
+                    and not isinstance(o.parent, model.SubmodelElementList):
+                par = o.parent
+                owner = next((st for st in par.namespace_element_sets if o in st), None)
+                if owner is None:
+                    continue
+                kw = dict(first=o.first, second=o.second, display_name=o.display_name, category=o.category, description=o.description,
+                          semantic_id=o.semantic_id, supplemental_semantic_id=list(o.supplemental_semantic_id))
+                try:
+                    owner.discard(o)
+                    new = (model.RelationshipElement if cls == "AnnotatedRelationshipElement" else model.AnnotatedRelationshipElement)(o.id_short, **kw)
+                    owner.add(new)
+                    return cls, "class"
+                except Exception:
+                    continue
     for o, cls in nodes:
         if cls in ("Key", "ExternalReference", "ModelReference", "SpecificAssetId"):
             continue                         # immutable value objects: changed through their owner's attribute below
@@ -537,18 +598,59 @@ def oracle(ctx: C.Ctx, cov: C.Coverage, n: Optional[int] = None, seed: Optional[
         from basyx.aas import model
         from basyx.aas.adapter.json import write_aas_json_file
         from basyx.aas.adapter.xml import write_aas_xml_file
+        # every pair on which the data checker itself raises is taken to the tool: the check function has to turn it into a report
+        for idx, (a, b, what) in enumerate(checker_pairs(seed, ctx.budget(300, 4000))):
+            for order, (x, y) in (("ab", (a, b)), ("ba", (b, a))):
+                v = real_verdict(x, y)
+                if isinstance(v, list) and v and v[0] == "raise":
+                    p1, p2 = os.path.join(d, "r1.json"), os.path.join(d, "r2.json")
+                    write_aas_json_file(p1, model.DictObjectStore([x])); write_aas_json_file(p2, model.DictObjectStore([y]))
+                    r = run_check("json", "equivalence", p1, p2)
+                    if r[0] == "raise":
+                        add(C.Failing(f"tool:json:equivalence:raises:{r[1]}:{what[0]}.{what[1]}", f"files differing in {what[0]}.{what[1]} "
+                                      f"({'changed file second' if order == 'ab' else 'changed file first'}): check_json_files_equivalence raised "
+                                      f"{r[1]}: {r[2]}", {"seed": seed, "pair": str(what), "fmt": "json", "check": "equivalence", "order": order}))
         for a, b, what in checker_pairs(seed, n or ctx.budget(60, 1500)):
             for fmt, wr in (("json", write_aas_json_file), ("xml", write_aas_xml_file)):
                 p1, p2 = os.path.join(d, f"eq1.{fmt}"), os.path.join(d, f"eq2.{fmt}")
                 wr(p1, model.DictObjectStore([a])); wr(p2, model.DictObjectStore([b]))
-                r = run_check(fmt, "equivalence", p1, p2)
-                case = {"seed": seed, "pair": str(what), "fmt": fmt, "check": "equivalence"}
+                for order, (q1, q2) in (("ab", (p1, p2)), ("ba", (p2, p1))):
+                    r = run_check(fmt, "equivalence", q1, q2)
+                    case = {"seed": seed, "pair": str(what), "fmt": fmt, "check": "equivalence", "order": order}
+                    if r[0] == "raise":
+                        add(C.Failing(f"tool:{fmt}:equivalence:raises:{r[1]}", f"files_equivalence raised {r[1]}: {r[2]}", case)); continue
+                    if what is None and r[2] != "SUCCESS":
+                        add(C.Failing(f"tool:{fmt}:equivalence:equal-files-fail", f"two files with the same data compare as different: {r[1]}", case))
+                    if what is not None and r[2] == "SUCCESS":
+                        add(C.Failing(f"checker:missed:{what[0]}.{what[1]}", f"files differing in {what[0]}.{what[1]} compare as equal ({fmt}, "
+                                      f"{'changed file second' if order == 'ab' else 'changed file first'})", case))
+        # AASX packages: a shell with one submodel, with and without the (optional) core properties part, in every combination
+        import datetime as _dt
+        import pyecma376_2
+        from basyx.aas.adapter import aasx as _aasx
+
+        def pkg(path, with_cp: bool, creator: str = "vf"):
+            sm_ = model.Submodel("urn:vf:sm", [model.Property("p", model.datatypes.Int, 1)])
+            sh_ = model.AssetAdministrationShell(model.AssetInformation(global_asset_id="urn:vf:asset"), "urn:vf:aas",
+                                                 submodel={model.ModelReference.from_referable(sm_)})
+            with _aasx.AASXWriter(path) as w:
+                w.write_aas("urn:vf:aas", model.DictObjectStore([sm_, sh_]), _aasx.DictSupplementaryFileContainer())
+                if with_cp:
+                    cp = pyecma376_2.OPCCoreProperties()
+                    cp.creator = creator
+                    cp.created = _dt.datetime(2024, 1, 2, 3, 4, 5)
+                    w.write_core_properties(cp)
+        for c1 in (True, False):
+            for c2 in (True, False):
+                p1, p2 = os.path.join(d, "a1.aasx"), os.path.join(d, "a2.aasx")
+                pkg(p1, c1); pkg(p2, c2)
+                r = run_check("aasx", "equivalence", p1, p2)
+                case = {"seed": seed, "fmt": "aasx", "check": "equivalence", "pair": f"core-properties:{c1}/{c2}"}
                 if r[0] == "raise":
-                    add(C.Failing(f"tool:{fmt}:equivalence:raises:{r[1]}", f"files_equivalence raised {r[1]}: {r[2]}", case)); continue
-                if what is None and r[2] != "SUCCESS":
-                    add(C.Failing(f"tool:{fmt}:equivalence:equal-files-fail", f"two files with the same data compare as different: {r[1]}", case))
-                if what is not None and r[2] == "SUCCESS":
-                    add(C.Failing(f"checker:missed:{what[0]}.{what[1]}", f"files differing in {what[0]}.{what[1]} compare as equal ({fmt})", case))
+                    add(C.Failing(f"tool:aasx:equivalence:raises:{r[1]}:core-properties", f"check_aasx_files_equivalence raised {r[1]} for "
+                                  f"packages {'with' if c1 else 'without'} / {'with' if c2 else 'without'} core properties: {r[2]}", case))
+                elif c1 == c2 and r[2] != "SUCCESS":
+                    add(C.Failing("tool:aasx:equivalence:equal-files-fail", f"two identical packages compare as different: {r[1]}", case))
     finally:
         shutil.rmtree(d, ignore_errors=True)
     # the known gap about unordered lists
